@@ -2,7 +2,7 @@
 C14 - probed system description and derived machine model match the machine.
 Property theorems; long proofs live in RigModel/Lemmas/C14.lean.
 -/
-import RigModel.Lemmas.C14m
+import RigModel.Lemmas.C14n
 set_option linter.unusedSimpArgs false
 set_option linter.unusedVariables false
 
@@ -368,6 +368,14 @@ theorem links_cores_enumerate (si : SysInfo) :
     (∀ x y l, (x, y, l) ∈ si.liveLinks ↔ ∃ ci, ((x, y), ci) ∈ si.chips ∧ l ∈ ci.links) ∧
     (∀ x y p s, (x, y, p, s) ∈ si.cores ↔ ∃ ci, ((x, y), ci) ∈ si.chips ∧ ci.coreStates[p]? = some s) :=
   ⟨mem_liveLinks si, mem_cores si⟩
+
+/-- **`links()` / `cores()` yield nothing twice**: with distinct keys, every (core, state) is yielded once, and
+every working link once when each record's link collection has no repetition (it is a `set` in the code; the
+decoded view lists 0..5 filtered) - in particular on the description returned by probing a machine state. -/
+theorem links_cores_once (si : SysInfo) (hnd : (si.chips.map (·.1)).Nodup) :
+    ((∀ xy ci, (xy, ci) ∈ si.chips → ci.links.Nodup) → si.liveLinks.Nodup) ∧ si.cores.Nodup ∧
+    (∀ st : ChipState, (chipView st).links.Nodup) :=
+  ⟨liveLinks_nodup si hnd, cores_nodup si hnd, chipView_links_nodup⟩
 
 /-- **`build_routing_table_target_lengths`** has exactly the description's keys (in order) and maps each
 chip to the probed largest free block of router entries. -/
